@@ -6,9 +6,10 @@ namespace ZChain.Notarize
 open ZChain.Alg ZChain.Agg
 variable {F : Type} [Field F] [DecidableEq F]
 
-/-- a ticket is valid for the message point `h`: its verifier is a miner of the magic block and the signature is that
+/-- a ticket is valid for the message point `h` w.r.t. the miner pool `pool` of the round's magic block (`pool v` = the
+key of miner `v`, `none` for anybody else): its verifier is a miner of that magic block and the signature is that
 miner's signature on `h`. -/
-def ValidT (pks : List F) (h : F) (t : Ticket F) : Prop := ∃ pk, pks[t.verifier]? = some pk ∧ t.sig = pk * h
+def ValidT (pool : Nat → Option F) (h : F) (t : Ticket F) : Prop := ∃ pk, pool t.verifier = some pk ∧ t.sig = pk * h
 
 omit [Field F] [DecidableEq F] in
 theorem mergeFold_spec (P : Ticket F → Prop) (recv acc : List (Ticket F))
@@ -92,11 +93,19 @@ theorem mergeTickets_length (a r : List (Ticket F)) : a.length ≤ (mergeTickets
     · exact mergeFold_length r a
 
 /-- the single-ticket verification of `handleVerificationTicketMessage` is exact. -/
-theorem verifyTickets_single (nd : Node F) (h : F) (t : Ticket F) :
-    (verifyTickets nd h [t]).getD false = true ↔ ValidT nd.pks h t := by
-  unfold verifyTickets ValidT Node.pk?
-  cases hp : nd.pks[t.verifier]? with
+theorem verifyTickets_single (nd : Node F) (slot : Nat) (h : F) (t : Ticket F) :
+    (verifyTickets nd slot h [t]).getD false = true ↔ ValidT (nd.pk? slot) h t := by
+  unfold verifyTickets ValidT
+  cases hp : nd.pk? slot t.verifier with
   | none => simp [hp]
   | some pk => simp [hp, aggSig, aggPair]
+
+omit [Field F] [DecidableEq F] in
+theorem hasDupNat_false (l : List Nat) (h : verifyNotarization.hasDupNat l = false) : l.Nodup := by
+  induction l with
+  | nil => exact List.nodup_nil
+  | cons x xs ih =>
+    simp only [verifyNotarization.hasDupNat, Bool.or_eq_false_iff] at h
+    exact List.nodup_cons.mpr ⟨by simpa using h.1, ih h.2⟩
 
 end ZChain.Notarize
